@@ -450,3 +450,78 @@ HARNESSES.append(
       functions=["PreemptibleResource.acquire/_try_preempt/_grant_immediate/_do_release/_wake_waiters", "PreemptibleGrant.release/_do_preempt"],
       bounds=lambda tier: {"capacity": [2, 3], "ops": 4 if tier == "quick" else 5, "amounts": [1, 2], "priorities": "symbolic 0..2", "preempt flag": "symbolic"},
       outside=["on_preempt callbacks that re-enter the resource"]))
+
+
+# ------------------------------------------------------------------ concurrency models: one step from an arbitrary state
+def concurrency_step(sym, tier):
+    """Fixed / Dynamic / Weighted concurrency model in an arbitrary state (symbolic limit and amount
+    in use; a Dynamic model may be over its limit after a scale-down), one operation with symbolic
+    arguments: acquire succeeds iff has_capacity said so and never takes the amount in use above the
+    limit; a refused acquire changes nothing; release gives back exactly what is released; available
+    and has_capacity agree with limit - in use; set_limit clamps to [min, max] and admits nothing."""
+    from happysimulator.components.server.concurrency import DynamicConcurrency, FixedConcurrency, WeightedConcurrency
+    r = Result()
+    kind = sym.choice("model", 3)
+    L = sym.int("limit", 1, 4)
+    used = sym.int("in_use", 0, 5)
+    if kind == 0:
+        m = FixedConcurrency(L)
+        if used > L:
+            return r
+        m._active = used
+    elif kind == 1:
+        m = DynamicConcurrency(initial=L, min_limit=1, max_limit=4)
+        m._active = used                       # may exceed the limit (after a scale-down)
+    else:
+        m = WeightedConcurrency(L)
+        if used > L:
+            return r
+        m._used_capacity = used
+    w = sym.int("weight", 1, 3) if kind == 2 else 1
+    op = sym.choice("op", 3 if kind == 1 else 2)
+    if m.available != (L - used if L - used > 0 else 0):
+        r.bad("available_is_limit_minus_in_use", {"model": kind, "limit": L, "in_use": used, "available": m.available})
+    could = m.has_capacity(w)
+    if could != (used + w <= L):
+        r.bad("has_capacity_iff_it_fits", {"model": kind, "limit": L, "in_use": used, "weight": w, "has_capacity": could})
+    if op == 0:
+        ok = m.acquire(w)
+        if ok != could:
+            r.bad("acquire_succeeds_iff_has_capacity", {"model": kind, "limit": L, "in_use": used, "weight": w})
+        if ok:
+            r.wit.add("admitted")
+            if m.active != used + w or m.active > m.limit:
+                r.bad("outstanding_amount_never_exceeds_capacity", {"model": kind, "limit": L, "in_use_before": used, "after": m.active})
+        else:
+            r.wit.add("refused")
+            if m.active != used:
+                r.bad("refused_acquire_changes_nothing", {"model": kind, "before": used, "after": m.active})
+    elif op == 1:
+        if w > used:
+            return r                           # a caller releases only what it holds
+        m.release(w)
+        if m.active != used - w:
+            r.bad("release_gives_back_exactly_what_is_released", {"model": kind, "before": used, "weight": w, "after": m.active})
+        if m.active < 0:
+            r.bad("in_use_never_negative", m.active)
+    else:
+        n = sym.int("new_limit", 0, 6)
+        m.set_limit(n)
+        want = 1 if n < 1 else (4 if n > 4 else n)
+        if m.limit != want or m.active != used:
+            r.bad("set_limit_clamps_and_admits_nothing", {"requested": n, "limit": m.limit, "in_use_before": used, "after": m.active})
+        if want < used:
+            r.wit.add("scaled_below_in_use")
+            if m.has_capacity() or m.acquire():
+                r.bad("over_limit_model_admits_nothing", {"limit": m.limit, "in_use": used})
+    r.obs = {"model": kind, "limit": L, "in_use": used}
+    return r
+
+
+HARNESSES.append(
+    H(name="c09_concurrency_step", fn=concurrency_step, shape="I", budget=lambda tier: 400.0,
+      cubes=lambda tier: [{"model": k} for k in range(3)],
+      require=lambda tier: ["admitted", "refused", "scaled_below_in_use"], classify=sync_classify,
+      functions=["FixedConcurrency.*", "DynamicConcurrency.*", "WeightedConcurrency.*"],
+      bounds=lambda tier: {"limit": "symbolic 1..4", "in use": "symbolic 0..5 (Dynamic: may exceed the limit)", "weight": "symbolic 1..3 (Weighted)", "new limit": "symbolic 0..6, clamped to [1,4]"},
+      assumptions=["0 <= in use <= limit for Fixed and Weighted models (set directly on the object)"]))
